@@ -250,3 +250,66 @@ class OneOf(Maker):
         for a in self.alts:
             out += a.examples(rng, n) if isinstance(a, Maker) else [a]
         return out
+
+
+
+class TripleOptFn(Maker):
+    """zero-argument callable returning a symbolic list of (start: int, end: int, line: Optional[int])
+    -- the shape of code.co_lines()"""
+    def __call__(self, eng, name):
+        from .engine import ConstFn
+        a = [z3.Array("%s!%d" % (name, j), z3.IntSort(), z3.IntSort()) for j in range(4)]
+        n = z3.Int(name + "!len")
+
+        def get(i):
+            return (SInt(z3.Select(a[0], i)), SInt(z3.Select(a[1], i)), SOpt(z3.Select(a[2], i) != 0, z3.Select(a[3], i)))
+        s = SSeq(n, get, kind="list", base=(name,) + tuple(a) + (n,))
+        return ConstFn(s), [n >= 0]
+
+    def examples(self, rng, n):
+        out = []
+        for _ in range(40):
+            rows = []
+            start = 0
+            for _i in range(rng.randint(0, 6)):
+                end = start + rng.choice([2, 2, 4, 6])
+                rows.append((start, end, rng.choice([None, 1, 2, 3, 300, 300])))
+                start = end
+            out.append(("__constfn__", rows))
+        return out
+
+
+def Col(fn_or_seq, j):
+    """column j of a TripleOptFn value as an IntList-compatible sequence"""
+    from .engine import ConstFn
+    s = fn_or_seq.value if isinstance(fn_or_seq, ConstFn) else fn_or_seq
+    if isinstance(s, SSeq):
+        arr = s.base[1 + j]
+        n = s.base[-1]
+        return SSeq(n, lambda i: SInt(z3.Select(arr, i)), kind="list", base=(s.base[0] + "!col%d" % j, arr, n))
+    rows = s() if callable(s) else s
+    if j == 2:
+        return [1 if r[2] is None else 0 for r in rows]
+    if j == 3:
+        return [0 if r[2] is None else r[2] for r in rows]
+    return [r[j] for r in rows]
+
+
+class Union(Maker):
+    """tagged union of makers / constants (the engine resolves it by forking when the value is read)"""
+    def __init__(self, *alts):
+        self.alts = alts
+
+    def __call__(self, eng, name):
+        from .engine import SUnion
+        t = z3.Int(eng.fresh(name + "!tag"))
+        vals = []
+        hyps = [t >= 0, t < len(self.alts)]
+        for i, a in enumerate(self.alts):
+            if isinstance(a, Maker):
+                v, hs = a(eng, eng.fresh(name + "!alt%d" % i))
+                hyps += hs
+            else:
+                v = a
+            vals.append(v)
+        return SUnion(t, vals), hyps
